@@ -1,4 +1,5 @@
 import AaVerif.Filter
+import AaVerif.FilterLemmas
 import AaVerif.Generated.Dists
 /-!
 # C03 — only/exclude directives keep exactly the rules meant for the build target
@@ -6,8 +7,9 @@ import AaVerif.Generated.Dists
 `Filter.model` (the step-by-step model of `directive.Run`) is run against the real code on
 every check; `Filter.spec` is the line-level statement of the property, and the real code is
 judged against it on every well-formed text (`Filter.wf`).  The theorems below are about the
-specification and the decision logic; the refinement `model = spec` on `wf` texts is validated
-by evaluation, not proved (stated in DESIGN.md).
+specification and the decision logic, and the refinement `model = spec` for the inline form
+(`C03_refines_inline_partial`: any number of directives; proved in `FilterLemmas.lean`); for guarded
+paragraphs the refinement is validated by evaluation, not proved (stated in DESIGN.md).
 -/
 namespace C03
 open Str Lines Filter
@@ -98,5 +100,43 @@ example : spec ⟨"arch".toList, "pacman".toList, "abi4".toList, "apparmor4.1".t
     [.plain "  /a r,".toList, .inline "  /b r,".toList true ["debian".toList],
      .para "  #aa:exclude arch".toList false ["arch".toList] ["  /c r,".toList]]
     = ["  /a r,".toList, []] := by decide +kernel
+
+/-! ## Refinement: the text-level model of `directive.Run` is the line-level specification
+
+`Filter.model` does what the Go code does: it scans the text once for directives and then applies them one
+after the other to the *whole evolving text* with substring semantics (`strings.Replace(text, raw, clean, 1)`,
+`strings.ReplaceAll(text, raw, "")`).  The specification speaks about lines.  For the inline form the two agree,
+for every text and any number of directives. -/
+
+/-- **`model = spec`, inline form** (partial: guarded paragraphs are outside the class).  For EVERY text in which every
+directive stands after a rule on its own line (`only` or `exclude`, matched text = the whole line, code before the marker)
+and the text of a directive line occurs in no other line, the model of `directive.Run` returns exactly the text of
+the line-level specification: each guarded line is its code without the marker when the target is selected and an
+empty line otherwise, every other line is unchanged, in place. -/
+theorem C03_refines_inline_partial (tg : Target) (t : List Char) (h : wfInlineSpec (splitNl t) = true) :
+    model tg t = some (specText tg t) := model_eq_spec_inline tg t h
+
+/-- … stated on lines: the result has the same number of lines, line by line `lineSpec` -/
+theorem C03_model_line_by_line (tg : Target) (t : List Char) (h : wfInline (splitNl t) = true) :
+    model tg t = some (joinNl ((splitNl t).map (lineSpec tg))) := model_inline tg t h
+
+/-- the class is inhabited by ordinary profile text: two inline directives (one kept, one dropped on this target),
+unguarded lines around them, a tab before a marker -/
+def inlineSample : List Char :=
+  "profile foo {\n  @{bin}/apt rPx, #aa:only apt\n  /etc/a r,\n  @{bin}/zypper rPx,\t#aa:exclude debian ubuntu\n\n  /etc/b r,   #aa:only abi4 whonix\n}\n".toList
+
+example : wfInlineSpec (splitNl inlineSample) = true := by decide +kernel
+
+example : model ⟨"debian".toList, "apt".toList, "abi4".toList, "apparmor4.1".toList⟩ inlineSample =
+    some "profile foo {\n  @{bin}/apt rPx,\n  /etc/a r,\n\n\n  /etc/b r,\n}\n".toList := by
+  rw [C03_refines_inline_partial _ _ (by decide +kernel)]
+  decide +kernel
+
+/-- what the class excludes, and why: a directive line whose text also occurs inside another line is rewritten there
+too by the substring replacement (the shipped `packagekitd` has such a pair; known finding K_rawSubstring) -/
+example : wfInline (splitNl "  /a r, #aa:only apt\n  x  /a r, #aa:only apt\n".toList) = false := by decide +kernel
+
+/-- … and a guarded paragraph (marker alone on its line) is outside the inline class -/
+example : wfInline (splitNl "  #aa:only apt\n  /a r,\n\n".toList) = false := by decide +kernel
 
 end C03
